@@ -3,13 +3,13 @@
     identifiers, integer and double literals of either sign, true / false / null, string and
     bytes literal tokens, prefix runs of any length,
     * / %, + -, the seven relations, && / || chains of any length, ?:, explicit parentheses,
-    field selection, indexing, member and global calls (of names that are not macros), list and
-    map literals - rendered with minimal parentheses: at token level with the fuel [compile]
+    field selection, indexing, member and global calls (of names that are not macros), list, map
+    and message literals (dotted type names, with or without the leading dot) - rendered with minimal parentheses: at token level with the fuel [compile]
     itself uses (the parse holds for all sufficient fuel, more fuel never changes an answer,
     and the parser's own fuel is never exhausted), and from source text; the operand order of
     && / || chains; the cancellation of prefix runs; that macros expand around their receiver
-    and arguments.  Outside the round-trip theorem: message literals and the optional-field
-    syntax the parser refuses; the correspondence run covers those (every tree with up to 2 (thorough: 3)
+    and arguments.  Outside the round-trip theorem: macro calls inside the trees, trailing commas and the
+    optional-field syntax the parser refuses; the correspondence run covers those (every tree with up to 2 (thorough: 3)
     operators, random deeper ones, fully and minimally parenthesised) and checks on every tree
     of the theorem's domain that the real lexer's tokens are the rendering [raw]. *)
 From Coq Require Import String Ascii.
@@ -116,6 +116,14 @@ Example C04_ex_postfix :
   wf_st t /\ ids_ok t /\ compile (text (raw t)) = CExpr (ast t) /\
   compile $"x.f(a + b, [1, {k: !c}])[i].g * 2" = CExpr (ast t).
 Proof. vm_compute. repeat split; try discriminate; reflexivity. Qed.
+
+(** .pkg.T{f: a + b, g: [x.y]} * 2 : a message literal is a primary; its name keeps the leading dot *)
+Example C04_ex_message :
+  let t := SMul TStar (SMsg true [$"pkg"; $"T"] [($"f", SAdd TPlus (SId $"a") (SId $"b")); ($"g", SLst [SSel (SId $"x") $"y"])])
+                      (SLit (LInt 2)) in
+  wf_st t /\ ids_ok t /\ compile (text (raw t)) = CExpr (ast t) /\
+  compile $".pkg.T{f: a + b, g: [x.y]} * 2" = CExpr (ast t).
+Proof. vm_compute. repeat split; try discriminate; try reflexivity. repeat constructor. Qed.
 
 Print Assumptions C04_chain_order.
 Print Assumptions C04_chain_loops.
